@@ -20,8 +20,10 @@ def props_of(d):
     anydead = d.get("anydead", 0) == 1
     cfg = d.get("cfg", ["", "", ""])
     P = {"C01"}
-    if pre == "dead" or (anydead and (op in ITER_OPS or op in ("InvalidateAll", "SaveLoad", "BulkGet", "BulkRefresh"))
-                         and f in ("res", "ents", "rrs", "proj.p", "saveload.loaded-entry")):
+    c03_fields = ("ok", "val", "err", "res", "ents", "rrs", "cbs", "loads", "num", "proj.p", "proj.v", "proj.exp", "saveload.loaded-entry")
+    if (pre == "dead" and f in c03_fields) or \
+            (anydead and (op in ITER_OPS or op in ("InvalidateAll", "SaveLoad", "BulkGet", "BulkRefresh"))
+             and f in ("res", "ents", "rrs", "proj.p", "saveload.loaded-entry")):
         P.add("C03")
     if f.startswith("ev.unjustified.Overflow") or f.startswith("ev.unjustified.Expiration") or f == "bound":
         P.add("C07")
